@@ -10,6 +10,7 @@ import (
 	"net/http"
 	"net/http/httptest"
 	"strconv"
+	"strings"
 	"sync/atomic"
 	"time"
 
@@ -187,6 +188,9 @@ func (hr *httpRunner) run(in input) hlib.Case {
 	c.Class = in.Class + "/" + strconv.Itoa(status)
 	if in.ReadFail != "" {
 		c.Class = "http-" + in.Ep + "/readfail-" + in.ReadFail + "/" + strconv.Itoa(status)
+	}
+	if status == 0 && strings.Contains(errText, "Timeout") {
+		c.Monitors = append(c.Monitors, fatalMark)
 	}
 	c.Nontrivial = len(body) > 0 && (status == 202 || zok || lok || enc == "" || enc == "identity")
 	return c
